@@ -9,7 +9,7 @@ from pathlib import Path
 
 from .common import MachineryError, run_tlc
 from .corpus import run_specs
-from .pairs import repeat_triples, twin_pairs
+from .pairs import look_groups, repeat_triples, twin_pairs
 from .tracecheck import validate
 
 _LINE = re.compile(r'^<<"PAIR", "(.*)">>$')
@@ -35,9 +35,11 @@ def main(d: str, seed: str, tier: str) -> None:
     d = Path(d).resolve()
     seed = int(seed)
     n_twin, n_rep, n_sub = (60, 60, 16) if tier == "quick" else (500, 500, 60)
+    n_look = 24 if tier == "quick" else 200
     tw = twin_pairs(seed, n_twin)
     rp = repeat_triples(seed, n_rep, n_sub)
-    specs = [s for p in tw for s in p] + [s for t in rp for s in t if s is not None]
+    lk = look_groups(seed, n_look)
+    specs = [s for p in tw for s in p] + [s for t in rp for s in t if s is not None] + [s for a, bs in lk for s in [a] + bs]
     t0 = time.time()
     runs = run_specs(specs)
     by = {r["name"]: r for r in runs}
@@ -51,16 +53,40 @@ def main(d: str, seed: str, tier: str) -> None:
         pairs.append({"name": a["name"] + "~scrambled", "kind": "repeat", "a": by[a["name"]]["events"], "b": by[b["name"]]["events"]})
         if c is not None:
             pairs.append({"name": a["name"] + "~subprocess", "kind": "repeat", "a": by[a["name"]]["events"], "b": by[c["name"]]["events"]})
+    # C20: what the accessors answer must not depend on when the tree was looked at before
+    def strip(evs):
+        return [{k: v for k, v in e.items() if k not in ("i", "b")} for e in evs]
+    look_stats = {"look_groups": len(lk), "look_pairs": 0, "looks_compared": 0, "look_runs_with_hibernation": 0,
+                  "look_runs_where_a_deme_woke": 0}
+    for a, bs in lk:
+        ea = strip(by[a["name"]]["events"])
+        look_stats["look_runs_with_hibernation"] += int(any(any(d[2] for d in e["demes"]) for e in ea))
+        hib_seen = set()
+        woke = False
+        for e in ea:
+            for d in e["demes"]:
+                if d[2]:
+                    hib_seen.add(d[0])
+                elif d[0] in hib_seen and d[1]:
+                    woke = True
+        look_stats["look_runs_where_a_deme_woke"] += int(woke)
+        for b in bs:
+            eb = strip(by[b["name"]]["events"])
+            mcs = {e["mc"] for e in eb if e["e"] == "look"}
+            fa = [e for e in ea if e["e"] == "lookend" or e["mc"] in mcs]
+            pairs.append({"name": b["name"], "kind": "look", "a": fa, "b": eb})
+            look_stats["look_pairs"] += 1
+            look_stats["looks_compared"] += min(len(fa), len(eb))
     res, states = compare(pairs, d, "pairs")
     # every run of the pair corpus is also a trace of HMS
-    traced = [r for r in runs if r["events"]]
+    traced = [r for r in runs if r["events"] and r["spec"].get("look") is None]
     v = validate(traced, d / "tlc", tag="pairtraces")
     (d / "tlc" / "pairtraces.json").unlink()
     stats = {"twin_pairs": len(tw), "repeat_pairs": len(rp), "subprocess_pairs": sum(1 for t in rp if t[2] is not None),
              "twin_with_cma": sum(1 for a, _ in tw if any(l["engine"].startswith("CMA") for l in a["levels"])),
              "twin_with_local": sum(1 for a, _ in tw if any(l["engine"] == "LOCAL" for l in a["levels"])),
              "twin_with_sprouts": sum(1 for a, _ in tw if any(e["e"] == "sprout" and e["ret"] for e in by[a["name"]]["events"])),
-             "events_compared": sum(min(len(p["a"]), len(p["b"])) for p in pairs)}
+             "events_compared": sum(min(len(p["a"]), len(p["b"])) for p in pairs), **look_stats}
     out = {"pairs": res, "pair_states": states, "stats": stats, "t_run_s": round(time.time() - t0, 1),
            "status": {r["name"]: r["status"] for r in runs},
            "trace_results": [{"name": t["name"], "viol": r["viol"]} for r, t in zip(v["results"], traced)],
